@@ -118,5 +118,37 @@ func SubstRingCorpus() []*sdl.Program {
 			}
 		}
 	}
+	// ... and a holder outside the ring that is created first and asks for two ring members, in
+	// either declaration order: which member it creates first is the order of its points
+	for L := 2; L <= 3; L++ {
+		for k := 0; k < L; k++ {
+			for _, plan := range []string{"after", "before"} {
+				for flip := 0; flip < 2; flip++ {
+					p := &sdl.Program{ID: "PX", Family: FamSubst, NIfaces: 1, Note: fmt.Sprintf("subst ring with holder L=%d member=%d plan=%s flip=%d", L, k, plan, flip)}
+					for i := 0; i < L; i++ {
+						t := &sdl.Type{Name: fmt.Sprintf("PXT%d", i), Init: true, Ifaces: []int{0}}
+						t.Points = []*sdl.Point{{Field: "F0", Kind: sdl.KPtr, Target: fmt.Sprintf("PXT%d", (i+1)%L), Sel: sdl.SelType}}
+						p.Types = append(p.Types, t)
+						p.Instances = append(p.Instances, &sdl.Instance{ID: fmt.Sprintf("c%d", i), Type: t.Name, Alias: fmt.Sprintf("bq%d", i)})
+					}
+					a, b := k, (k+1)%L
+					if flip == 1 {
+						a, b = b, a
+					}
+					h := &sdl.Type{Name: "PXTH", Init: true, Points: []*sdl.Point{
+						{Field: "F0", Kind: sdl.KPtr, Target: fmt.Sprintf("PXT%d", a), Sel: sdl.SelType},
+						{Field: "F1", Kind: sdl.KPtr, Target: fmt.Sprintf("PXT%d", b), Sel: sdl.SelType}}}
+					p.Types = append(p.Types, h)
+					p.Instances = append(p.Instances, &sdl.Instance{ID: fmt.Sprintf("c%d", L), Type: h.Name, Alias: "aa"})
+					at := sdl.CbAfter
+					if plan == "before" {
+						at = sdl.CbBefore
+					}
+					p.Procs = []*sdl.Proc{{ID: "pp0", Class: "smart", Rules: []*sdl.Rule{{Target: fmt.Sprintf("c%d", k), At: at, Action: "substitute", Sub: "s0"}}}}
+					out = append(out, p)
+				}
+			}
+		}
+	}
 	return out
 }
